@@ -791,20 +791,28 @@ pub(crate) fn m_ol_numbering() {
         }
         return;
     }
-    let mut html = format!("<ol start=\"{}\">", start);
-    for _ in 0..n {
-        html.push_str("<li>x</li>");
+    // the solver's witness, and the same oracle at the places where a wrong last number shows in the
+    // output (the marker column changes width when the numbering crosses a power of ten or zero)
+    let mut cases: Vec<(i64, usize)> = vec![(start, n)];
+    for (s0, n0) in [(8i64, 2usize), (9, 1), (98, 2), (99, 1), (-1, 2), (-10, 1), (-10, 2), (1, 9), (1, 10)] {
+        cases.push((s0, n0));
     }
-    html.push_str("</ol>");
-    let out = crate::config::plain().string_from_read(html.as_bytes(), 60).expect("renders at width 60");
-    let last = start.saturating_add(n as i64 - 1);
-    let wmax = std::cmp::max(format!("{}. ", start).len(), format!("{}. ", last).len());
-    let lines: Vec<&str> = out.lines().collect();
-    assert!(lines.len() == n, "one line per item");
-    for (k, line) in lines.iter().enumerate() {
-        let num = start.saturating_add(k as i64);
-        let want = format!("{: <w$}x", format!("{}. ", num), w = wmax);
-        assert!(*line == want, "item {}: got {:?}, want {:?}", k, line, want);
+    for (start, n) in cases {
+        let mut html = format!("<ol start=\"{}\">", start);
+        for _ in 0..n {
+            html.push_str("<li>x</li>");
+        }
+        html.push_str("</ol>");
+        let out = crate::config::plain().string_from_read(html.as_bytes(), 60).expect("renders at width 60");
+        let last = start.saturating_add(n as i64 - 1);
+        let wmax = std::cmp::max(format!("{}. ", start).len(), format!("{}. ", last).len());
+        let lines: Vec<&str> = out.lines().collect();
+        assert!(lines.len() == n, "one line per item");
+        for (k, line) in lines.iter().enumerate() {
+            let num = start.saturating_add(k as i64);
+            let want = format!("{: <w$}x", format!("{}. ", num), w = wmax);
+            assert!(*line == want, "list from {} with {} items, item {}: got {:?}, want {:?}", start, n, k, line, want);
+        }
     }
 }
 
